@@ -58,17 +58,8 @@ def matches(exp, impl_line):
 def run(ctx):
     quick = ctx.tier == "quick"
     ctx.build_go()
-    ctx.extract(["lexer", "tables"])
-    try:
-        ctx.prove("Emerge.Props.C20")
-        if not quick:
-            ctx.leanchecker("Emerge.Props.C20")
-    except Broken as b:
-        ctx.add_broken(b.what, b.detail)
-        ok, out = ctx.lake(["model"])
-        if not ok:
-            ctx.add_broken("model driver no longer builds", out[-2000:])
-            return ctx.finish(LEVEL, {"evaluations": 0, "distinct_nontrivial": 0, "samples": [], "explanation": "aborted"}, [])
+    if not ctx.prepare(["lexer", "tables"], "Emerge.Props.C20", quick):
+        return ctx.finish(LEVEL, {"evaluations": 0, "distinct_nontrivial": 0, "samples": [], "explanation": "aborted"}, [])
     rng = ctx.rng
     texts = []
     nspec = 150 if quick else 1500
